@@ -361,6 +361,21 @@ def r7b(ctx):
         ok = bool(terms) and not foreign
         ctx.ob("R7", "TextEdit text in %s#%d" % (f.id, sum(1 for x in prog.who_calls(r"lsp_types::TextEdit::new$") if x.fn is f and x.bb < c.bb)), ok,
                "= RewriteData.fixed" if ok else "the quick-fix text is not RewriteData.fixed as it is (passes through %s)" % sorted(set(foreign)), where=f.loc(c.line))
+    # …and the range of a TextEdit is the range the rewrite data carries (all edits of one WorkspaceEdit refer to the ORIGINAL document:
+    # shifting later edits by the lines earlier ones add is a misreading of the protocol)
+    for c in prog.who_calls(r"lsp_types::TextEdit::new$"):
+        f = c.fn
+        def rterm(g, o):
+            return "range" in field_path(o.proj) and any(x in " ".join(map(str, o.proj)) for x in ("RewriteData", "Diagnostic"))
+        from ..query import IDENTITY_CALLS
+        terms, foreign = identity_flow(prog, f, c.args[0], rterm, ident=IDENTITY_CALLS | {"unwrap_or", "unwrap_or_else", "or", "or_else"})
+        foreign = [x for x in foreign if not (x.startswith("parameter") or x in ("next", "into_iter", "iter", "pop", "remove"))]
+        fam_txt = "".join(repr(b["s"]) for g in prog.family(prog.fns.get(f.root) or f) for b in g.blocks)
+        carried = bool(terms) or ".range|ast_grep_lsp::utils::RewriteData" in fam_txt
+        ok = carried and not foreign
+        ctx.ob("R7", "TextEdit range in %s#%d" % (f.id, sum(1 for x in prog.who_calls(r"lsp_types::TextEdit::new$") if x.fn is f and x.bb < c.bb)), ok,
+               "= the carried range as it is" if ok else "the edit's range is recomputed on the way (%s): fix-all proposes another range than quick-fix, the CLI and the library for the same match" % sorted(set(foreign)),
+               where=f.loc(c.line))
     ctx.floor("R7", "downstream uses of the carried replacement text", n, 3)
     # the text itself is produced by ONE template mechanism for string-form and object-form fixes: both reach the template scanner with the
     # transformation names, and the scanner looks them up as a set (the C12 R4 obligations).  A form-specific preparation (sorted names for
